@@ -265,8 +265,10 @@ Definition dec_opt (s : sexp) : option opt :=
     match dStr l, dOpt dStr sh, dec_val d with
     | Some l, Some sh, Some d =>
       (* the object's flags are the normalised ones (Flags.opt_defaults) *)
-      Some {| o_long := l; o_short := sh; o_default := d;
-              o_flags := opt_defaults f (match sh with Some _ => true | None => false end) |}
+      let f' := opt_defaults f (match sh with Some _ => true | None => false end) in
+      (* a multi-valued option without default keeps [] (Option.set_default) *)
+      Some {| o_long := l; o_short := sh; o_flags := f';
+              o_default := if bit f' 5 then match d with VNone => VList [] | _ => d end else d |}
     | _, _, _ => None end
   | _ => None end.
 Definition dec_copt (s : sexp) : option copt :=
@@ -280,7 +282,10 @@ Definition dec_arg (s : sexp) : option arg :=
   match s with
   | L [n; A f; d] =>
     match dStr n, dec_val d with
-    | Some n, Some d => Some {| a_name := n; a_flags := arg_defaults f; a_default := d |}
+    | Some n, Some d =>
+      let f' := arg_defaults f in
+      Some {| a_name := n; a_flags := f';
+              a_default := if bit f' 2 then match d with VNone => VList [] | _ => d end else d |}
     | _, _ => None end
   | _ => None end.
 Definition dec_cname (s : sexp) : option cname :=
